@@ -7,5 +7,5 @@ import (
 )
 
 func TestMain(m *testing.M) {
-	wsx.Main(m, map[string]wsx.Handler{"a": runA, "b": runB, "c": runC, "d": runD, "e": runE, "f": runF, "g": runG})
+	wsx.Main(m, map[string]wsx.Handler{"a": runA, "b": runB, "c": runC, "d": runD, "e": runE, "f": runF, "g": runG, "h": runH})
 }
